@@ -147,7 +147,9 @@ func genC19(x *Ctx) *c19Scen {
 			// q-values with odd but legal spacing; pairs that differ in blanks only. Every value names
 			// application/json cleanly, so the map-ordered fallback of accessorAt is never reached.
 			r.Accept = []string{"application/xml ;q=0.9, application/json;q=0.8", "application/xml;q=0.9,application/json;q=0.8", "application/xml; q=0.9, application/json; q=0.8",
-				"application/json;q=0.5, application/xml", "application/json;q=0.5,application/xml", "application/xml ; q=0.9 , application/json;q=0.8"}[tp.G(6)]
+				"application/json;q=0.5, application/xml", "application/json;q=0.5,application/xml", "application/xml ; q=0.9 , application/json;q=0.8",
+				// q-values that do not parse: whatever the library makes of them, it is the same with tracing on and off
+				"application/json, application/xml;q=1e999", "application/xml;q=high, application/json;q=0.5"}[tp.G(8)]
 		}
 		r.Body = r.Method == "POST"
 		if r.Body {
